@@ -36,6 +36,7 @@ EXPLANATION += (' R-C10-7: incremental sums over classes (outer loop over j, inn
 EXPLANATION += (' R-C10-8: the per-node maximum load (paired by position with the nodes of a load step by the binned laws) is computed with a groupby that keeps the order of appearance (sort=False); order-class analysis.')
 EXPLANATION += (' R-C10-9 (shared with R-C07-8 / R-C05-12): the per-point look-up tables of the binned law are never replaced or re-ordered after their construction; their rows are paired with the points of a load step by position.')
 EXPLANATION += (' R-C10-10: the rule R-C04-1 evaluated for this property (sample insensitivity rests on the junction of the two HCM passes: flush decision on the look-ahead sequence, trailing plateau taken at its first sample, second pass flushes); its open known finding is listed for C10 too.')
+EXPLANATION += (' R-C10-11: with per-point look-up tables of the binned law the class of every point is searched in that point\'s own table; a search with the first point\'s load whose result selects the rows of all points is reported (open known finding: four look-up methods).')
 ASSUMPTIONS = [
     "pandas groupby(level).reduction() reduces within each group only; element-wise numpy/pandas operations keep rows apart",
 ]
@@ -284,6 +285,15 @@ def run(ctx):
     ctx.attempt(_r8)
     ctx.attempt(_r9)
     ctx.attempt(_r10)
+    ctx.attempt(_r11)
+
+
+def _r11(ctx):
+    """R-C10-11 (helper `c07.first_point_searches`): with per-point look-up tables the class of a load is searched per point, in
+    that point's own table - not once, with the first point's load, for all points of the batch."""
+    from .c07 import first_point_searches
+    ctx.rule("R-C10-11", floor=1, what="per-point look-up tables: the class of every point is searched in that point's own table")
+    first_point_searches(ctx)
 
 
 def _r10(ctx):
